@@ -1,6 +1,7 @@
 """Code -> spec: executions of the real code recorded as traces and validated by TLC."""
 import json
 import os
+import shutil
 import subprocess
 import tempfile
 
@@ -14,8 +15,10 @@ def record_suite(repo):
     fd, path = tempfile.mkstemp(prefix="suite-", suffix=".ndjson", dir=os.path.join(T.BUILD, "traces"))
     os.close(fd)
     env = dict(os.environ)
+    # (the suite's picture tests leave a temporary .dot file behind on every run where the `dot` binary is missing)
+    scratch = tempfile.mkdtemp(prefix="suite-tmp-", dir=os.path.join(T.BUILD, "traces"))
     env.update(PYTHONPATH=T.VERIF + os.pathsep + repo, ANYTREE_VERIF_TRACE=path, PYTHONDONTWRITEBYTECODE="1", PYTHONHASHSEED="0",
-               ANYTREE_ASSERTIONS="0")
+               ANYTREE_ASSERTIONS="0", TMPDIR=scratch)
     p = subprocess.run([core.PYTHON, "-m", "pytest", "-q", "-p", "no:cacheprovider", "-p", "harness.pytest_tracer", "--timeout=900",
                         "-x" if False else "-q", "tests"], cwd=repo, env=env, capture_output=True, text=True, timeout=1800)
     tail = [l for l in p.stdout.strip().splitlines() if " passed" in l or " failed" in l][-1:] or [""]
@@ -26,6 +29,7 @@ def record_suite(repo):
             e["id"] = "s%d" % i
             events.append(e)
     os.remove(path)
+    shutil.rmtree(scratch, ignore_errors=True)
     return events, tail[0]
 
 
